@@ -429,6 +429,36 @@ func TestVerif_C03_Wire(t *testing.T) {
 						return
 					}
 					m.Count("packets_decoded_by_peer", 1)
+					if (kind == "publish" || kind == "play" || kind == "call" || kind == "closeStream") && r.Chance(1, 3) {
+						// the same command as a Flash Player with objectEncoding 3 sends it: message type 17, one 0x00 byte, then the
+						// AMF0 body.  The dispatch anchored in the statement covers it: same packet type, same body after the prefix.
+						am := NewStreamMessage(r.Intn(3))
+						am.MessageType = MessageTypeAMF3Command
+						am.Payload = append([]byte{0}, want...)
+						if err := pa.WriteMessage(am); err != nil {
+							m.Violationf("c03:write-error:"+kind, rep, "%v", err)
+							return
+						}
+						msg3, err := pb.ReadMessage()
+						if err != nil || !bytes.Equal(msg3.Payload, am.Payload) {
+							m.Violationf("c03:read-error:"+kind+":amf3", rep, "%v; trace=%v", err, trace)
+							return
+						}
+						pkt3, err := pb.DecodeMessage(msg3)
+						if err != nil {
+							m.Violationf("c03:decode-error:"+kind+":amf3", rep, "peer cannot decode a %s command sent as message type 17 (0x00 + AMF0 body): %v", kind, err)
+							return
+						}
+						if reflect.TypeOf(pkt3) != c.expect {
+							m.Violationf("c03:wrong-type:"+kind+":amf3", rep, "%s sent as message type 17 decoded as %T, the protocol defines %v", kind, pkt3, c.expect)
+							return
+						}
+						if b3, err := pkt3.MarshalBinary(); err != nil || !bytes.Equal(b3, want) {
+							m.Violationf("c03:decoded-remarshal-differs:"+kind+":amf3", rep, "decoded %T re-marshals to %s, body was %s", pkt3, mon.Hex(b3), mon.Hex(want))
+							return
+						}
+						m.Count("commands_also_sent_as_amf3_messages", 1)
+					}
 				} else {
 					// B sends a response, A decodes it under the transaction model
 					var tid amf0.Number
